@@ -18,7 +18,7 @@ from ..run import hyp_run
 
 ID = 'C02'
 LEVEL = 'exploration'
-BUDGET_S = {'quick': 150, 'thorough': 1500}
+BUDGET_S = {'quick': 300, 'thorough': 1500}
 RULE = ('one workbook per case (2-4 coordinate-coded sheets) with ~25 reference formulas; non-trivial = the reference has a sheet '
         'prefix or a $ or a multi-letter column or a multi-digit row or is an area of >= 2 cells, and it addresses a sheet other '
         'than the first or an area containing a blank; far-cell cases use entry-point translation; '
